@@ -33,7 +33,7 @@ Require Import SC3.lib.PyNum SC3.gen.Gen_builtins.
 Import ListNotations.
 
 (* ------------------------------------------------------------------ values *)
-Inductive val := VN (n : num) | VB (b : bool) | VL (l : list val) | VT (l : list val).
+Inductive val := VN (n : num) | VB (b : bool) | VL (l : list val) | VT (l : list val) | VNone.
 
 Definition as_num (v : val) : option num :=
   match v with
@@ -48,7 +48,7 @@ Inductive bop := BAdd | BSub | BMul | BDiv | BFloordiv | BMod | BMin | BMax
                | BLt | BLe | BGt | BGe | BEq | BNe.
 Inductive uop := UNeg | UAbs.
 Inductive nop := NClip | NWrap | NFold.
-Inductive fname := FInc | FDbl | FNeg | FPair | FEven | FLt3 | FPos.
+Inductive fname := FInc | FDbl | FNeg | FPair | FEven | FLt3 | FPos | FBoom.   (* FBoom: raises a BaseException *)
 Inductive fkind := KCollect | KSelect | KReject.
 
 Definition binop (o : bop) (a b : val) : option val :=
@@ -89,12 +89,14 @@ Definition fn_apply (f : fname) (v : val) : option val :=
              | None => None end
   | FLt3 => binop BLt v (VN (I 3))
   | FPos => binop BGt v (VN (I 0))
+  | FBoom => None
   end.
 
 Definition truthy (v : val) : bool :=
   match v with
   | VN n => truth n | VB b => b
   | VL l | VT l => match l with [] => false | _ => true end
+  | VNone => false
   end.
 (* range(abs(n)) : n must be an int (bool accepted) *)
 Definition as_count (v : val) : option nat :=
@@ -976,6 +978,7 @@ Fixpoint val_eqb (a b : val) {struct a} : bool :=
   | VB x, VB y => Bool.eqb x y
   | VL x, VL y => leq x y
   | VT x, VT y => leq x y
+  | VNone, VNone => true
   | _, _ => false
   end.
 Fixpoint vals_eqb (l1 l2 : list val) : bool :=
